@@ -1396,8 +1396,7 @@ theorem parse_list (text : List Char) (file : List UInt8) (toks : List PTok) (ta
       tail = none ∧ ∃ ss, parseTokens text toks = some ss ∧ forest = encStmts file ss := by
   unfold parseWith
   simp only
-  rw [show ({ src := { text := text, file := file, toks := toks, errs := [], tail := tail }, tokens := [],
-    depth := 0, fault := Fault.none } : P) = initP text file toks tail from rfl]
+  rw [show (⟨⟨text, file, toks, [], tail⟩, [], 0, Fault.none⟩ : P) = initP text file toks tail from rfl]
   have hat : At text file ((initP text file toks tail) : P) toks := ⟨rfl, rfl, rfl, rfl, rfl, rfl⟩
   have htop := topLoop_spec text file toks.length toks (Nat.le_refl _) fuel (toks.length + 1) [] _ hat hf
     (Nat.le_refl _) hadm
@@ -1455,7 +1454,9 @@ theorem parse_list (text : List Char) (file : List UInt8) (toks : List PTok) (ta
       rcases h with h | h
       · have : (LS.errs (topLoop LS fuel [] (initP text file toks tail)).2.src) = [] := hr2
         rw [this] at h; cases h
-      · rw [h] at hr5; simp at hr5
+      · rw [h] at hr5
+        have : (initP text file toks tail).depth = 0 := rfl
+        omega
     have hb2 : Bad (checkStatementDepthIsZero LS (topLoop LS fuel [] (initP text file toks tail)).2) := by
       unfold checkStatementDepthIsZero
       rw [if_neg (by simpa using hne)]
